@@ -72,6 +72,10 @@ def instances(tier, seed):
                 add(spec=s, cfg=Cfg(method, N=N, M=M, intg=intg or 'rk', grid=g, degree=degree, scheme=scheme), free=free,
                     cT=cs[n % 3], ct0=cs[(n + 1) % 3], guess=Fr(7, 4), via_set_initial=(n % 2 == 1))
                 n += 1
+    # t0 and T declared through ONE FreeTime object (same guess): still two decision variables
+    for mi, (method, intg) in enumerate((('MS', 'rk'), ('DC', None))):
+        add(spec=models()[0], cfg=Cfg(method, N=2, M=[2, 1][mi], intg=intg or 'rk', grid=[fam.G_UNI, fam.G_UNI_LT][mi], degree=2, scheme='radau'), free=frees[2] if len(frees[2]) == 2 else [f_ for f_ in frees if len(f_) == 2][0],
+            cT=Fr(3, 2), ct0=Fr(3, 2), guess=Fr(7, 4), shared_freetime=True)
     # seeded random problems (model, constraint set, objective): the relational comparison needs no reference semantics
     from .. import randspec
     rr = random.Random(seed * 7919 + 1111)
@@ -112,6 +116,8 @@ def run(item):
         if 't0' in free:
             sA.t0 = ('free', ct0 - Fr(3, 4))
             sA.initial = list(sA.initial) + [(t0_, ct0)]
+    if item.get('shared_freetime'):
+        sA.shared_freetime = True
     sB.T = ('num', cT)
     sB.t0 = ('num', ct0)
     # A0: free-time problem on fresh variables (to learn which variables are the horizon)
@@ -133,6 +139,10 @@ def run(item):
             hv[name] = [i for i, v in enumerate(A0.xv) if z3.eq(v, e)][0]
             ch.proved.append('value(%s) is a decision variable' % name)
             ch.nontrivial.add('value(%s) is a decision variable' % name)
+    if len(hv) == 2 and hv['T'] == hv['t0']:
+        V('horizon-variables-aliased', 't0/T', 'value(ocp.t0) and value(ocp.T) of the free-time problem are one and the same decision variable (%s)' % A0.xv[hv['T']])
+    elif len(hv) == 2:
+        ch.proved.append('t0 and T are distinct decision variables')
     # value(tf) == value(t0)+value(T)
     doms = A0.domains()
     trs = {d: A0.traj(d) for d in doms}
